@@ -176,6 +176,10 @@ def probes():
         ('poll_deflate', 'GET', q + '&sid=$', {'headers': {'Accept-Encoding': 'deflate, gzip'}}),
         ('open_gzip', 'GET', q, {'headers': {'Accept-Encoding': 'gzip, deflate'}}),
         ('get_unknown_gzip', 'GET', q + '&sid=nosuchsid-nosuchsid', {'headers': {'Accept-Encoding': 'gzip'}}),
+        # codings spelt the way the client likes, with parameters, after codings this server does not know
+        ('poll_gzip_case', 'GET', q + '&sid=$', {'headers': {'Accept-Encoding': 'GZIP, deflate'}}),
+        ('get_unknown_deflate_case', 'GET', q + '&sid=nosuchsid-nosuchsid', {'headers': {'Accept-Encoding': 'br, Deflate;q=0.8, *;q=0'}}),
+        ('open_gzip_q', 'GET', q, {'headers': {'Accept-Encoding': 'identity;q=0.1, gzip ; q=0.5'}}),
         ('post_bad_gzip', 'POST', q + '&sid=$', {'body': b'7', 'headers': {'Accept-Encoding': 'gzip'}}),
         ('open_ws_upgrade_only', 'GET', 'EIO=4&transport=websocket', {'headers': {'Upgrade': 'websocket'}}),
         ('open_ws_nohdr', 'GET', 'EIO=4&transport=websocket', {}),
